@@ -93,14 +93,17 @@ def visit (cfg : GenCfg) : Nat → Val → G String
       | .ID => do asStr (← fld n "name") "ID.name"
       | .Pragma => do
         let s ← fld n "string"
-        if s.truthy then
+        if s.isCls .Constant then pure ("_Pragma(" ++ (← visit cfg fuel s) ++ ")")
+        else if s.truthy then
           pure ("#pragma " ++ (← asStr s "Pragma.string"))
         else pure "#pragma"
       | .ArrayRef => do
         let a ← parenUnlessSimple cfg fuel (← fld n "name")
         pure (a ++ "[" ++ (← visit cfg fuel (← fld n "subscript")) ++ "]")
       | .StructRef => do
-        let a ← parenUnlessSimple cfg fuel (← fld n "name")
+        let nm ← fld n "name"
+        let a ← parenUnlessSimple cfg fuel nm
+        let a := if nm.isCls .Constant then "(" ++ a ++ ")" else a
         let t ← asStr (← fld n "type") "StructRef.type"
         pure (a ++ t ++ (← visit cfg fuel (← fld n "field")))
       | .FuncCall => do
@@ -138,7 +141,9 @@ def visit (cfg : GenCfg) : Nat → Val → G String
         let rv ← fld n "rvalue"
         let rs ← visitExpr cfg fuel rv
         let rs := if rv.isCls .Assignment then "(" ++ rs ++ ")" else rs
-        let ls ← visit cfg fuel (← fld n "lvalue")
+        let lv ← fld n "lvalue"
+        let ls ← visitExpr cfg fuel lv
+        let ls := if lv.isCls .Assignment then "(" ++ ls ++ ")" else ls
         pure (ls ++ " " ++ (← asStr (← fld n "op") "Assignment.op") ++ " " ++ rs)
       | .IdentifierType => do joinStrs (← fld n "names") "IdentifierType.names"
       | .Decl => visitDecl cfg fuel n false
@@ -165,14 +170,14 @@ def visit (cfg : GenCfg) : Nat → Val → G String
         let es ← asList (← fld n "exprs") "InitList.exprs"
         pure (", ".intercalate (← es.mapM (visitExpr cfg fuel)))
       | .Enum => generateStructUnionEnum cfg fuel n "enum"
-      | .Alignas => do pure ("_Alignas(" ++ (← visit cfg fuel (← fld n "alignment")) ++ ")")
+      | .Alignas => do pure ("_Alignas(" ++ (← visitConstantExpr cfg fuel (← fld n "alignment")) ++ ")")
       | .Enumerator => do
         let v ← fld n "value"
         let nm ← asStr (← fld n "name") "Enumerator.name"
         if !v.truthy then pure ((← makeIndent) ++ nm ++ ",\n")
         else
           let ind ← makeIndent
-          pure (ind ++ nm ++ " = " ++ (← visit cfg fuel v) ++ ",\n")
+          pure (ind ++ nm ++ " = " ++ (← visitConstantExpr cfg fuel v) ++ ",\n")
       | .FuncDef => do
         let decl ← visit cfg fuel (← fld n "decl")
         setIndent 0
@@ -248,7 +253,7 @@ def visit (cfg : GenCfg) : Nat → Val → G String
         let cs ← if c.truthy then visit cfg fuel c else pure ""
         pure ("do\n" ++ body ++ ind ++ "while (" ++ cs ++ ");")
       | .StaticAssert => do
-        let c ← visit cfg fuel (← fld n "cond")
+        let c ← visitConstantExpr cfg fuel (← fld n "cond")
         let m ← fld n "message"
         if m.truthy then pure ("_Static_assert(" ++ c ++ "," ++ (← visit cfg fuel m) ++ ")")
         else pure ("_Static_assert(" ++ c ++ ")")
@@ -257,7 +262,7 @@ def visit (cfg : GenCfg) : Nat → Val → G String
         let body ← generateStmt cfg fuel (← fld n "stmt") true
         pure ("switch (" ++ c ++ ")\n" ++ body)
       | .Case => do
-        let e ← visit cfg fuel (← fld n "expr")
+        let e ← visitConstantExpr cfg fuel (← fld n "expr")
         let ss ← asList (← fld n "stmts") "Case.stmts"
         let body ← ss.mapM fun st => generateStmt cfg fuel st true
         pure ("case " ++ e ++ ":\n" ++ String.join body)
@@ -277,7 +282,7 @@ def visit (cfg : GenCfg) : Nat → Val → G String
         let names ← asList (← fld n "name") "NamedInitializer.name"
         let parts ← names.mapM fun nm => do
           if nm.isCls .ID then do pure ("." ++ (← asStr (← fld nm "name") "ID.name"))
-          else do pure ("[" ++ (← visit cfg fuel nm) ++ "]")
+          else do pure ("[" ++ (← visitConstantExpr cfg fuel nm) ++ "]")
         pure (String.join parts ++ " = " ++ (← visitExpr cfg fuel (← fld n "expr")))
       | .FuncDecl => generateType cfg fuel n [] true
       | .ArrayDecl => generateType cfg fuel n [] false
@@ -312,6 +317,13 @@ def visitExpr (cfg : GenCfg) : Nat → Val → G String
     else if n.isCls .ExprList || n.isCls .Compound then pure ("(" ++ (← visit cfg fuel n) ++ ")")
     else visit cfg fuel n
 
+/-- `_visit_constant_expr` -/
+def visitConstantExpr (cfg : GenCfg) : Nat → Val → G String
+  | 0, _ => G.fail .fuel
+  | fuel+1, n => do
+    let s ← visitExpr cfg fuel n
+    if n.isCls .Assignment then pure ("(" ++ s ++ ")") else pure s
+
 /-- `_parenthesize_unless_simple` -/
 def parenUnlessSimple (cfg : GenCfg) : Nat → Val → G String
   | 0, _ => G.fail .fuel
@@ -323,9 +335,9 @@ def parenUnlessSimple (cfg : GenCfg) : Nat → Val → G String
 def visitDecl (cfg : GenCfg) : Nat → Val → Bool → G String
   | 0, _, _ => G.fail .fuel
   | fuel+1, n, noType => do
-    let s ← if noType then asStr (← fld n "name") "Decl.name" else generateDecl cfg fuel n
+    let s ← if noType then generateType cfg fuel (← fld n "type") [] true false else generateDecl cfg fuel n
     let b ← fld n "bitsize"
-    let s ← if b.truthy then do pure (s ++ " : " ++ (← visit cfg fuel b)) else pure s
+    let s ← if b.truthy then do pure (s ++ " : " ++ (← visitConstantExpr cfg fuel b)) else pure s
     let i ← fld n "init"
     if i.truthy then pure (s ++ " = " ++ (← visitExpr cfg fuel i)) else pure s
 
@@ -339,16 +351,15 @@ def generateDecl (cfg : GenCfg) : Nat → Val → G String
     let s ← if st.truthy then do pure (s ++ (← joinStrs st "storage") ++ " ") else pure s
     let al ← fld n "align"
     let s ← if al.truthy then do
-        match ← asList al "align" with
-        | a :: _ => pure (s ++ (← visit cfg fuel a) ++ " ")
-        | [] => pure s
+        let l ← asList al "align"
+        pure (s ++ " ".intercalate (← l.mapM (visit cfg fuel)) ++ " ")
       else pure s
     pure (s ++ (← generateType cfg fuel (← fld n "type") [] true))
 
 /-- `_generate_type(n, modifiers, emit_declname)` -/
-def generateType (cfg : GenCfg) : Nat → Val → List Val → Bool → G String
-  | 0, _, _, _ => G.fail .fuel
-  | fuel+1, n, modifiers, emitDeclname => do
+def generateType (cfg : GenCfg) : Nat → Val → List Val → Bool → (emitType : Bool := true) → G String
+  | 0, _, _, _, _ => G.fail .fuel
+  | fuel+1, n, modifiers, emitDeclname, emitType => do
     if n.isCls .TypeDecl then
       let q ← fld n "quals"
       let s ← if q.truthy then do pure ((← joinStrs q "quals") ++ " ") else pure ""
@@ -356,12 +367,13 @@ def generateType (cfg : GenCfg) : Nat → Val → List Val → Bool → G String
       let dn ← fld n "declname"
       let nstr0 ← if dn.truthy && emitDeclname then asStr dn "declname" else pure ""
       let nstr ← applyModifiers cfg fuel modifiers 0 Val.none nstr0
-      if !nstr.isEmpty then pure (s ++ " " ++ nstr) else pure s
+      if !emitType then pure nstr
+      else if !nstr.isEmpty then pure (s ++ " " ++ nstr) else pure s
     else if n.isCls .Decl then generateDecl cfg fuel (← fld n "type")
     else if n.isCls .Typename then generateType cfg fuel (← fld n "type") [] emitDeclname
     else if n.isCls .IdentifierType then do pure ((← joinStrs (← fld n "names") "names") ++ " ")
     else if n.isCls .ArrayDecl || n.isCls .PtrDecl || n.isCls .FuncDecl then
-      generateType cfg fuel (← fld n "type") (modifiers ++ [n]) emitDeclname
+      generateType cfg fuel (← fld n "type") (modifiers ++ [n]) emitDeclname emitType
     else visit cfg fuel n
 
 /-- the `for i, modifier in enumerate(modifiers)` loop of `_generate_type`;
@@ -376,7 +388,7 @@ def applyModifiers (cfg : GenCfg) : Nat → List Val → Nat → Val → String 
       let dq ← fld m "dim_quals"
       let qs ← if dq.truthy then do pure ((← joinStrs dq "dim_quals") ++ " ") else pure ""
       let dim ← fld m "dim"
-      let ds ← if !dim.isNone then visit cfg fuel dim else pure ""
+      let ds ← if !dim.isNone then visitExpr cfg fuel dim else pure ""
       applyModifiers cfg fuel rest (i + 1) m (nstr ++ "[" ++ qs ++ ds ++ "]")
     else if m.isCls .FuncDecl then
       let nstr := if wrap then "(" ++ nstr ++ ")" else nstr
@@ -428,7 +440,7 @@ def generateStmt (cfg : GenCfg) : Nat → Val → Bool → G String
     let indent ← makeIndent
     if addInd then addIndent (-2)
     let semi := [Cls.Decl, .Assignment, .Cast, .UnaryOp, .BinaryOp, .TernaryOp, .FuncCall, .ArrayRef,
-      .StructRef, .Constant, .ID, .Typedef, .ExprList]
+      .StructRef, .Constant, .ID, .Typedef, .ExprList, .CompoundLiteral]
     match n.cls? with
     | some c =>
       if semi.contains c then pure (indent ++ (← visit cfg fuel n) ++ ";\n")
